@@ -249,7 +249,21 @@ func sortedAfter(s mapRangeSite, o types.Object) bool {
 		return false
 	}
 	after := false
-	for _, st := range block.List {
+	// the first statement after the loop that mentions the slice; a plain nested block is looked into (its statements
+	// simply follow)
+	var flat []ast.Stmt
+	var flatten func(list []ast.Stmt)
+	flatten = func(list []ast.Stmt) {
+		for _, st := range list {
+			if b, ok := st.(*ast.BlockStmt); ok {
+				flatten(b.List)
+			} else {
+				flat = append(flat, st)
+			}
+		}
+	}
+	flatten(block.List)
+	for _, st := range flat {
 		if st == ast.Stmt(s.rs) {
 			after = true
 			continue
